@@ -1,4 +1,4 @@
-// C13 round 2 — iterator members, calling contexts, two live trees, emplace argument forms.
+// C13 round 2 — iterator members, calling contexts, two live trees.
 //
 //   iter     every member of KDTree::Iterator (pre/post increment, *, ->, ==, !=, copy, assignment onto an
 //            iterator that already designates another position, range-for) on every tree built by <= 4 inserts
@@ -7,8 +7,7 @@
 //   ctx      the whole observer sweep and the destruction of the tree inside a catch handler, during stack
 //            unwinding, after a rethrow, on a fresh thread; two live trees queried alternately, then one of
 //            them modified and the other one compared again
-//   emplace  every argument form of emplace (no value argument, (count, char), const char*, rvalue, lvalue,
-//            two ints) next to insert, in every sequence of <= 3 calls
+#include <future>
 #include <thread>
 
 #include "C13_gen.hh"
@@ -100,7 +99,7 @@ VF_SECTION(iter, 16, 16, 120) {
       std::vector<E> seen;
       for (size_t i = 0; i < n; i++) {
         const E& a = *pos[i];
-        if (!(same_pt(a.first, pos[i]->first) && a.second == pos[i]->second) || &a != pos[i].operator->())
+        if (!(same_pt(a.first, pos[i]->first) && a.second == pos[i]->second))
           ck.fail("iterator:dereference", [&] { return vf::fmt("*it and it-> disagree at position %zu", i); });
         seen.push_back(a);
       }
@@ -170,9 +169,10 @@ VF_SECTION(ctx, 16, 16, 120) {
   setup(ck);
   int maxlen = r.thorough() ? 4 : 3;
   static const char* names[] = {"forward then reverse sweep", "inside a catch handler for out_of_range", "in a destructor during stack unwinding (tree destroyed by the same unwinding)",
-      "in the outer handler after a rethrow", "tree built, observed and destroyed on a fresh thread", "tree built on the main thread, observed on a fresh thread"};
+      "in the outer handler after a rethrow", "tree built, observed and destroyed on a fresh thread", "tree built on the main thread, observed on a fresh thread",
+      "observed on a second thread, modified on the main thread, observed again on the same second thread"};
   all_seqs(maxlen, [&](const std::vector<uint32_t>& seq) {
-    for (int c = 0; c < 6; c++) {
+    for (int c = 0; c < 7; c++) {
       if (!r.take()) continue;
       if (r.wants_desc()) r.desc(show_seq(seq) + ", observers " + names[c]);
       ck.hist = [&] { return show_seq(seq) + ", observers " + names[c]; };
@@ -238,7 +238,7 @@ VF_SECTION(ctx, 16, 16, 120) {
           th.join();
           break;
         }
-        default: {
+        case 5: {
           Holder<Tree> h; M m;
           fill(ck, *h.t, m, seq);
           std::thread th([&] { ck.sweep(*h.t, m, true, RANGE_FOR); });
@@ -247,7 +247,32 @@ VF_SECTION(ctx, 16, 16, 120) {
           ck.destroy(h);
           break;
         }
+        default: {
+          // hand-over through promise/future pairs: the two threads never touch the tree at the same time
+          Holder<Tree> h; M m;
+          fill(ck, *h.t, m, seq);
+          std::promise<void> observed, modified;
+          std::thread th([&] {
+            ck.sweep(*h.t, m, false, PRE_ARROW);
+            observed.set_value();
+            modified.get_future().wait();
+            ck.sweep(*h.t, m, true, POST_STAR);
+          });
+          observed.get_future().wait();
+          bool ok;
+          if (!seq.empty()) { ck.erase(*h.t, m, alphabet5()[seq[0]].first, alphabet5()[seq[0]].second); ok = ck.scan(*h.t, m, "erase"); }
+          else { ck.insert(*h.t, m, V2(1, 1), 0, false); ok = ck.scan(*h.t, m, "insert"); }
+          (void)ok;
+          modified.set_value();
+          th.join();
+          ck.sweep(*h.t, m, false, RANGE_FOR);
+          ck.destroy(h);
+          break;
+        }
       }
+      // a clean-up skipped because of the context has no other symptom.  One scan costs ~30 ms, so only the contexts that
+      // destroy the tree in a special situation are scanned (the plain ones are what the E-BFS workers scan per slice)
+      if (c == 1 || c == 2 || c == 4 || c == 6) ck.leak_check();
       if (seq.size() >= 2) r.nontriv();
       r.ok(names[c]);
       ck.hist = nullptr;
@@ -281,130 +306,7 @@ VF_SECTION(ctx, 16, 16, 120) {
     }
   });
   r.counters["observer_calls_compared"] += ck.calls;
-  r.bound = vf::fmt("every tree built by <= %d inserts from 5 entries x 6 calling contexts (plain, catch handler, unwinding, after rethrow, fresh thread, observers on another thread), all observers over 9 points and 81 boxes; "
+  r.bound = vf::fmt("every tree built by <= %d inserts from 5 entries x 7 calling contexts (plain, catch handler, unwinding, after rethrow, fresh thread, observers on another thread, second thread before and after a modification on the main thread), all observers over 9 points and 81 boxes; "
                     "every such tree next to every tree of <= 2 inserts, observers alternating, one modified, the other compared again", maxlen);
-}
-
-// ---- emplace argument forms ----------------------------------------------------------------------------
-#ifdef C13_HAVE_EMPLACE
-namespace {
-template <class Val>
-struct Forms;
-template <>
-struct Forms<std::string> {
-  static constexpr int N = 6;
-  static const char* name(int f) {
-    static const char* n[] = {"emplace(p)", "emplace(p, 40, 'x')", "emplace(p, \"literal\")", "emplace(p, std::move(s))", "emplace(p, s)", "insert(p, s)"};
-    return n[f];
-  }
-  // returns the value the new entry must hold
-  template <class T>
-  static std::string apply(T& t, const V2& p, int f, typename T::Iterator& out) {
-    std::string s(48, (char)('A' + f));
-    switch (f) {
-      case 0: out = t.emplace(p); return std::string();
-      case 1: out = t.emplace(p, 40, 'x'); return std::string(40, 'x');
-      case 2: out = t.emplace(p, "literal"); return std::string("literal");
-      case 3: { std::string tmp = s; out = t.emplace(p, std::move(tmp)); return s; }
-      case 4: out = t.emplace(p, s); return s;
-      default: out = t.insert(p, s); return s;
-    }
-  }
-};
-template <>
-struct Forms<Tracked> {
-  static constexpr int N = 6;
-  static const char* name(int f) {
-    static const char* n[] = {"emplace(p)", "emplace(p, 3, 4)", "emplace(p, int64_t 7)", "emplace(p, std::move(v))", "emplace(p, v)", "insert(p, v)"};
-    return n[f];
-  }
-  template <class T>
-  static Tracked apply(T& t, const V2& p, int f, typename T::Iterator& out) {
-    Tracked v(100 + f);
-    switch (f) {
-      case 0: out = t.emplace(p); return Tracked();
-      case 1: out = t.emplace(p, 3, 4); return Tracked(34);
-      case 2: out = t.emplace(p, (int64_t)7); return Tracked(7);
-      case 3: { Tracked tmp = v; out = t.emplace(p, std::move(tmp)); return v; }
-      case 4: out = t.emplace(p, v); return v;
-      default: out = t.insert(p, v); return v;
-    }
-  }
-};
-
-template <class Val>
-void run_forms(vf::Run& r, const char* vname, int maxlen) {
-  using T = KDTree<V2, Val>;
-  using F = Forms<Val>;
-  Checker<V2, Val> ck(r);
-  ck.all_probes({0, 1});
-  ck.all_boxes({0, 1, 2}, false);
-  static const V2 pts[3] = {V2(0, 0), V2(0, 1), V2(1, 0)};
-  const uint32_t nops = (uint32_t)F::N * 3;
-  for (int len = 1; len <= maxlen; len++) {
-    std::vector<uint32_t> radix((size_t)len, nops);
-    for (vf::Odometer o(radix); !o.done; o.step()) {
-      if (!r.take()) continue;
-      std::vector<uint32_t> seq(o.d.rbegin(), o.d.rend());
-      auto describe = [&] {
-        std::string s = std::string("KDTree<Vector2<int64_t>, ") + vname + ">:";
-        for (uint32_t op : seq) s += std::string(" ") + F::name((int)(op / 3)) + " with p=" + show_pt(pts[op % 3]);
-        return s;
-      };
-      if (r.wants_desc()) r.desc(describe());
-      ck.hist = describe;
-      r.note(std::string("emplace forms ") + vname);
-      int64_t base = Tracked::live();
-      {
-        Holder<T> h;
-        Model<V2, Val> m;
-        bool ok = true;
-        for (size_t i = 0; i < seq.size() && ok; i++) {
-          int f = (int)(seq[i] / 3);
-          const V2& p = pts[seq[i] % 3];
-          typename T::Iterator it = h.t->end();
-          Val expect{};
-          std::string oc = outcome([&] { expect = F::apply(*h.t, p, f, it); });
-          if (oc != "ok") { ck.fail("emplace:throws", [&] { return std::string(F::name(f)) + " threw " + oc; }); ok = false; break; }
-          m.items.emplace_back(p, expect);
-          if (it == h.t->end() || !same_pt(it->first, p) || !(it->second == expect))
-            ck.fail("emplace:returned-iterator", [&] { return std::string(F::name(f)) + " with p=" + show_pt(p) + ": the returned iterator does not designate the new entry with value " + show_v(expect); });
-          ok = ck.scan(*h.t, m, "emplace");
-        }
-        if (ok) ck.sweep(*h.t, m, false, PRE_ARROW);
-        // every entry can be erased by its value, newest first
-        while (ok && !m.items.empty()) {
-          auto e = m.items.back();
-          ck.erase(*h.t, m, e.first, e.second);
-          ok = ck.scan(*h.t, m, "erase");
-        }
-        ck.destroy(h);
-      }
-      if (Tracked::live() != base) {
-        int64_t n = Tracked::live() - base;
-        ck.fail("values:live-count", [&] { return vf::fmt("%lld value objects are alive after the tree and the model were destroyed (expected 0)", (long long)n); });
-        Tracked::live() = base;
-      }
-      if (seq.size() >= 2) r.nontriv();
-      r.ok(std::string(vname) + vf::fmt(" values, %zu calls", seq.size()));
-      ck.hist = nullptr;
-    }
-  }
-  r.counters["observer_calls_compared"] += ck.calls;
-}
-}  // namespace
-#endif
-
-VF_SECTION(emplace, 8, 16, 120) {
-#ifdef C13_HAVE_EMPLACE
-  int maxlen = r.thorough() ? 4 : 3;
-  run_forms<std::string>(r, "std::string", maxlen);
-  run_forms<Tracked>(r, "instance-counting value", maxlen);
-  r.bound = vf::fmt("every sequence of 1..%d calls over 6 insertion forms (emplace with no / two / one converted / rvalue / lvalue value arguments, insert) x 3 points, for std::string values and for instance-counting values; "
-                    "structure, returned iterator, all observers, erase of every entry by value, live value count", maxlen);
-#else
-  r.notes.push_back("KDTree::emplace cannot be instantiated on this tree: the emplace argument forms were not executed");
-  r.exhaustive = false;
-  r.bound = "nothing (emplace does not compile)";
-#endif
+  if (ck.leak_seen) r.finish_now();
 }
